@@ -20,6 +20,11 @@ def cases(seed, tier, broken=()):
                     "use_pca": bool(rng.random() < 0.6), "npc": int(rng.integers(2, 6)), "center": bool(rng.random() < 0.6),
                     "standardize": bool(rng.random() < 0.3), "mean_offset": float(rng.choice([0.0, 3.0, -10.0])),
                     "period": float(rng.uniform(5, 20)), "r": float(rng.uniform(0.85, 0.99)), "amp_ratio": float(10.0 ** rng.uniform(-3.5, 0))})
+    # a GROWING noise-free oscillation (|lambda| > 1): the damping time is the (negative) e-folding time the formula gives, not a placeholder
+    for i in range({"quick": 4, "thorough": 30, "search": 12}[tier]):
+        out.append({"kind": "oscillator_noisefree", "mseed": int(rng.integers(0, 2**31)), "n": int(rng.integers(40, 90)), "p": 2, "use_pca": bool(i % 2), "npc": 2,
+                    "center": False, "standardize": False, "mean_offset": 0.0, "period": float(rng.uniform(6, 15)), "r": float(rng.uniform(1.005, 1.03)),
+                    "amp_ratio": 1.0})
     return out
 
 
